@@ -10,6 +10,14 @@ TB = ("Trusted base: go/types+go/ssa (x/tools v0.29.0) front end, the govc VC ge
 
 HALF = 'Build-time half only: what the templates emit from the compiled Output and what the runtime library does with it are outside the technique (no verifier for text/template; the runtime is an external module). '
 CLAIMS = {
+ "C12": dict(
+   technique="contract-based deductive verification: zero-annotation safety sweep (index/slice bounds, nil dereference, nil map write, unchecked type assertion, explicit panic, overflow, callee preconditions) over go/ssa of every function of /repo, SMT; structural termination obligations",
+   text=("For every non-generated function of /repo (with or without a functional contract) govc generates a safety obligation at each potentially panicking instruction and discharges it for all inputs under the function's stated precondition; "
+         "callers discharge callee preconditions at static call sites. Structural obligations: the static call graph has no recursion, every loop is a range loop (or carries a decreases clause), there are no goroutines, and os.WriteFile in the code generator is the only file-mutating call. "
+         "Preconditions that remain are of three kinds, all listed in the contracts: injected collaborators are non-nil (composition root), resolvers are asked only about arguments they support (proved at ArgResolver), and a printed line fits the row / EndIndent follows Indent (proved at StepVerboseSwitchable)."),
+   note=("Not proved: that the composition root (internal/gontainer, reflection-driven runtime) wires non-nil collaborators and that validation precedes the compile steps (Compiler.Compile is proved to stop at the first failing step; the step order is wiring), termination and panic-freedom of external libraries (yaml.v3, cobra, gonum cycle enumeration, goimports, text/template), stdout write failures (A13). "
+         "Trusted (bodies not verified): regex.Match, types.IsPrimitive, token.toExpr, template.createDefaultFunctions, cmd.buildRunner, runner.DecorateStepVerboseSwitchable, input.init#2. Functions not under contract have their callees' effects havoc'ed. " + TB),
+   design="DESIGN.md section 4 C12"),
  "C05": dict(
    technique="contract-based deductive verification: contracts on the real scope conversion and shared-on-contextual validator over go/ssa with a ghost edge relation for the library graph, SMT",
    text=("Proof that the scope keyword tables map exactly shared/contextual/non_shared to their constants (global invariant proved for init), that Scope.UnmarshalYAML accepts only keyword values, "
